@@ -7,6 +7,7 @@ pub mod bitvec;
 pub mod iters;
 pub mod prefetch;
 pub mod prims;
+pub mod space;
 pub mod total;
 pub mod trees;
 pub mod twins;
@@ -28,6 +29,9 @@ pub fn cases(cfg: &Cfg) -> Vec<Case> {
         "C11" => twins::cases_c11(cfg),
         "C12" => iters::cases_c12(cfg),
         "C13" => prims::cases_c13(cfg),
+        "C14" => space::cases_c14(cfg),
+        "C15" => space::cases_c15(cfg),
+        "C16" => space::cases_c16(cfg),
         "C17" => prims::cases_c17(cfg),
         other => {
             eprintln!("unknown property {}", other);
